@@ -4,7 +4,7 @@
 # writes one line per change to sensitivity_results.txt (CAUGHT / MISSED / BROKEN).
 cd /verif
 PAT=${1:-}
-OUT=/verif/sensitivity_results.txt
+OUT=${SENS_OUT:-/verif/sensitivity_results.txt}
 run() { # name patch prop
   local line
   local outp
